@@ -31,13 +31,13 @@ def run(tier, rep):
     recs, _ = vlib.run_vh(["c08-replay", p], timeout=3000)
     handle(rep, recs)
     tr = os.path.join(vlib.scratch(), "c08.trace.ndjson")
-    recs, _ = vlib.run_vh(["c08-drive", tr, "3000" if thorough else "400"], timeout=3000)
+    recs, _ = vlib.run_vh(["c08-drive", tr, "30000" if thorough else "400"], timeout=3000)
     handle(rep, recs)
     for rj in vlib.validate_traces(rep, "Trace_DocTree", "Trace_DocTree.cfg", tr, timeout=3000):
         ev = rj["failing_event"]
         rep.violation({"property": "C08", "key": "json-roundtrip-random", "kind": "b2",
                        "summary": "JSON %s does not convert back to an equal value" % ev.get("json"), "json": ev.get("json"), "back": ev.get("back")})
-    recs, _ = vlib.run_vh(["c08-xml", "3000" if thorough else "400"], timeout=3000)
+    recs, _ = vlib.run_vh(["c08-xml", "40000" if thorough else "400"], timeout=3000)
     handle(rep, recs)
     # XML namespaces (XMLTree.tla): every document of N elements with declarations, re-declarations and shadowing in which
     # each used URI is bound by exactly one prefix in scope; the declaration-stack design of the code must report the
